@@ -11,4 +11,13 @@ cd coq
 ( echo "-Q . BP"; find Base gen Model Spec Proofs Properties -name '*.v' | LC_ALL=C sort ) > _CoqProject.new
 if ! cmp -s _CoqProject.new _CoqProject 2>/dev/null; then mv _CoqProject.new _CoqProject; coq_makefile -f _CoqProject -o Makefile >/dev/null; else rm _CoqProject.new; fi
 [ -f Makefile ] || coq_makefile -f _CoqProject -o Makefile >/dev/null
+if [ $# -eq 0 ]; then
+  # no targets: build what the registered checks need (other files may be work in progress)
+  set -- $(/venv/bin/python - <<'PY'
+import json
+m = json.load(open("../MANIFEST.json"))
+print(" ".join(f"Properties/{c['property_id']}.vo" for c in m["checks"]), "Model/Canon.vo Model/Len.vo Model/Decode.vo")
+PY
+)
+fi
 exec flock .build.lock timeout 3000 make -j"${VERIF_JOBS:-16}" "$@"
